@@ -403,7 +403,7 @@ func (r constantReference) Link(scope Scope, t TypeSpec) (ConstantValue, error) 
 			return EnumItemReference{
 				Enum: enum,
 				Item: item,
-			}, nil
+			}.Link(scope, t)
 		}
 
 		return nil, referenceError{
